@@ -3,3 +3,4 @@ pub mod zipw;
 pub mod xlsx;
 pub mod ods;
 pub mod cfb;
+pub mod biff8;
